@@ -114,6 +114,7 @@ type ContractSet struct {
 	Axioms []*AxiomDecl
 	Models []*ModelField
 	Monotone []string
+	Immutable []string
 	Sweeps []*SweepDecl
 	TypeInvs []*TypeInv
 	Files  []string
@@ -254,6 +255,19 @@ func parseContractSource(cs *ContractSet, file, src, pkgPath string) error {
 		case "monotone":
 			cs.Monotone = append(cs.Monotone, strings.TrimSpace(rest))
 			cur = nil
+		case "immutable":
+			cs.Immutable = append(cs.Immutable, strings.TrimSpace(rest))
+			cur = nil
+		case "waive":
+			if cur == nil {
+				return fmt.Errorf("%s:%d: waive outside a func contract", rl.file, rl.line)
+			}
+			parts := strings.SplitN(rest, " ", 2)
+			why := ""
+			if len(parts) == 2 {
+				why = parts[1]
+			}
+			cur.Flags["waive:"+parts[0]] = why
 		case "modelfield":
 			// modelfield T.f ghost fn
 			f := strings.Fields(rest)
